@@ -1,0 +1,46 @@
+//go:build verif
+
+package requests
+
+import "time"
+
+// VerifRequest describes one entry of the request queue.
+type VerifRequest struct {
+	Index     uint32
+	Sent      bool
+	Cancelled bool
+}
+
+// VerifList returns the unsent and the sent requests, in order.
+func (rs *Requests) VerifList() []VerifRequest {
+	var l []VerifRequest
+	for _, r := range rs.queue {
+		l = append(l, VerifRequest{r.index, false, false})
+	}
+	for _, r := range rs.requested {
+		l = append(l, VerifRequest{r.index, true, r.Cancelled()})
+	}
+	return l
+}
+
+// VerifMember reports whether the membership bitmap has index.
+func (rs *Requests) VerifMember(index uint32) bool {
+	return rs.bitmap.Get(int(index))
+}
+
+// VerifAge makes every request d older, as if d had elapsed.
+func (rs *Requests) VerifAge(d time.Duration) {
+	for i := range rs.queue {
+		rs.queue[i].qtime = rs.queue[i].qtime.Add(-d)
+	}
+	for i := range rs.requested {
+		r := &rs.requested[i]
+		r.qtime = r.qtime.Add(-d)
+		if !r.rtime.IsZero() {
+			r.rtime = r.rtime.Add(-d)
+		}
+		if !r.ctime.IsZero() {
+			r.ctime = r.ctime.Add(-d)
+		}
+	}
+}
